@@ -116,8 +116,12 @@ Quiescent == \A v \in Inst : ~Busy(v)
 \* lvs_validator(checker, app, anchor): built, or refused with ValueError
 NewValidator(v, a) ==
   /\ Quiescent /\ inst[v].k = "none" /\ a \in AnchorChoice(v) /\ a \in DOMAIN W.certs
-  /\ inst' = [inst EXCEPT ![v] = [k |-> IF GoodAnchor(a) THEN "ok" ELSE "refused", anchor |-> a, good |-> GoodAnchor(a)]]
-  /\ UNCHANGED <<W, cache, val, wire, out, nval, dev, nodev>>
+  /\ \/ /\ NoDev("Ed25519Unsupported", GoodAnchor(a) /\ KeyTypeEd)
+        /\ inst' = [inst EXCEPT ![v] = [k |-> IF GoodAnchor(a) THEN "ok" ELSE "refused", anchor |-> a, good |-> GoodAnchor(a)]]
+     \/ \* DEVIATION: an Ed25519 self-signature is never accepted, the anchor is refused
+        /\ Dev("Ed25519Unsupported", GoodAnchor(a) /\ KeyTypeEd)
+        /\ inst' = [inst EXCEPT ![v] = [k |-> "refused", anchor |-> a, good |-> TRUE]]
+  /\ UNCHANGED <<W, cache, val, wire, out, nval>>
   /\ Track
 
 \* await validator(name, sig_ptrs) of packet p on instance v (one at a time per instance)
@@ -128,16 +132,21 @@ Validate(v, p) ==
   /\ UNCHANGED <<W, inst, cache, wire, out, dev, nodev>>
   /\ Track
 
-\* the network answers the certificate Interest of instance v as the world says
-\* (bound: a timeout only while no other instance waits, their lifetimes would end together)
+\* the network answers the certificate Interest of instance v as the world says. No answer = the Interest
+\* lifetime passes; it passes for every instance that is waiting, so that step is taken only when the
+\* world gives none of them an answer, and ends all their fetches (bound of the model).
+Waiting == {u \in Inst : val[u].k = "run" /\ val[u].pc = "fetching"}
+Wanted(u) == El(Top(val[u].stack)).kl
 FetchReply(v, kind) ==
-  /\ Quiescent /\ val[v].k = "run" /\ val[v].pc = "fetching"
-  /\ LET n == El(Top(val[v].stack)).kl IN
-       /\ kind = Serv(n)
-       /\ (kind \in {"timeout", "absent"} => \A u \in Inst \ {v} : ~(val[u].k = "run" /\ val[u].pc = "fetching"))
-       /\ val' = IF kind = "yes"
-                 THEN [val EXCEPT ![v].stack = Append(@, n), ![v].pc = "check"]      \* the fetched certificate is validated
-                 ELSE [val EXCEPT ![v].pc = "reject"]
+  /\ Quiescent /\ v \in Waiting
+  /\ kind = Serv(Wanted(v))
+  /\ \/ /\ kind = "yes"
+        /\ val' = [val EXCEPT ![v].stack = Append(@, Wanted(v)), ![v].pc = "check"]      \* the fetched certificate is validated
+     \/ /\ kind = "nack"
+        /\ val' = [val EXCEPT ![v].pc = "reject"]
+     \/ /\ kind \in {"timeout", "absent"}
+        /\ \A u \in Waiting : Serv(Wanted(u)) \in {"timeout", "absent"}
+        /\ val' = [u \in Inst |-> IF u \in Waiting THEN [val[u] EXCEPT !.pc = "reject"] ELSE val[u]]
   /\ UNCHANGED <<W, inst, cache, wire, out, nval, dev, nodev>>
   /\ Track
 
@@ -331,6 +340,12 @@ MCWorlds(maxd) == {MCWorld(q) : q \in Params(maxd)}
 W3 == MCWorlds(3)
 W4 == MCWorlds(4)
 W2 == MCWorlds(2)
+\* small world sets for the executor: learning which deviations the code has, orders of validations
+WClean == {MCWorld([sch |-> "strict", d |-> 2, dev |-> "none", i |-> 0])}
+WLoop == {MCWorld([sch |-> "peer", d |-> 2, dev |-> "loop", i |-> 2])}
+WOrd == {MCWorld(q) : q \in {[sch |-> "strict", d |-> 2, dev |-> "none", i |-> 0], [sch |-> "strict", d |-> 3, dev |-> "none", i |-> 0],
+                             [sch |-> "strict", d |-> 2, dev |-> "forged", i |-> 1], [sch |-> "strict", d |-> 2, dev |-> "absent", i |-> 1],
+                             [sch |-> "strict", d |-> 3, dev |-> "subst", i |-> 2], [sch |-> "peer", d |-> 3, dev |-> "none", i |-> 0]}}
 WEd == {[MCWorld(q) EXCEPT !.kt = "ed"] : q \in {[sch |-> "strict", d |-> 2, dev |-> "none", i |-> 0],
                                                  [sch |-> "strict", d |-> 2, dev |-> "forged", i |-> 1]}}
 MCAnchors(v) == IF v = "v1" THEN {"RA", "RAx", "RAf", "RAo"} ELSE {"RB", "RA"}
